@@ -198,6 +198,14 @@ Structure ==
                           D |-> D, P |-> P, nullity |-> Len(NullBasis(c)), nullbasis |-> NullBasis(c),
                           rank |-> Dim(c) - Len(NullBasis(c))]) \o " @@END"))
 
+\* Named deviation (the defect repaired by commit 3904ef1, kept as the non-vacuity test of NullExact): the rank of
+\* the precision claimed from the boundary condition alone, whatever the order.  NOT part of the deciding
+\* configurations; cfg/DiffOps.dev_rankfrombc.cfg checks it as an invariant and expects TLC to refute it
+\* (neumann order 2 has nullity 2 in 1-D and 4 in 2-D).
+RankFromBCOnly ==
+    Valid(c) => LET D == DOp(c)
+                IN (IF Len(D) = 0 THEN 0 ELSE Rank(MR(D))) = Dim(c) - (IF c.bc \in {"periodic", "neumann"} THEN 1 ELSE 0)
+
 Init == c \in {k \in Configs : Valid(k)}
 Next == UNCHANGED c
 Spec == Init /\ [][Next]_c
